@@ -197,15 +197,37 @@ class DavSession:
         path = SLOTS[c] + "/"
         if how == "auto":
             how = {"calendar": "mkcalendar", "addressbook": "xmkcol", "other": "mkcol"}[kind]
-        if how == "mkcalendar":
+        if how == "mkcalendar" and props:
+            resp = self.world.request("MKCALENDAR", path, [("Content-Type", "text/xml")],
+                                      gamma.mkcalendar_body(props))
+        elif how == "mkcalendar":
             resp = self.world.request("MKCALENDAR", path, [], None)
         elif how == "mkcol":
             resp = self.world.request("MKCOL", path, [], None)
         else:
             resp = self.world.request("MKCOL", path, [("Content-Type", "text/xml")],
                                       gamma.mkcol_body(kind, props))
-        ev = {"op": "Mk", "c": c, "kind": kind, "how": how}
-        return self._record(ev, resp, {"m": how, "path": path})
+        # per-property status of properties given at creation time
+        mprops = []
+        if props and resp.body[:1] == b"<":
+            import xml.etree.ElementTree as ET
+            try:
+                root = ET.fromstring(resp.body)
+                st = {}
+                for ps in root.iter(DAV + "propstat"):
+                    code = None
+                    for ch in ps:
+                        if ch.tag == DAV + "status":
+                            code = alpha.status_code(ch.text)
+                    for pr in ps.iter(DAV + "prop"):
+                        for el in pr:
+                            st[el.tag] = code
+                for p, v in props:
+                    mprops.append({"p": p, "v": self.V(v), "pst": st.get(gamma.PROP_TAGS[p]) or 0})
+            except ET.ParseError:
+                pass
+        ev = {"op": "Mk", "c": c, "kind": kind, "how": how, "mprops": mprops}
+        return self._record(ev, resp, {"m": how, "path": path, "props": list(props)})
 
     def delete_coll(self, c):
         path = SLOTS[c] + "/"
